@@ -27,7 +27,7 @@ THEOREMS = ['Pyiga.Props.C13.' + n for n in [
     'sep_boundary', 'sep_geo_dim', 'sep_arity', 'sep_components', 'sep_space', 'sep_updatable', 'sep_on_demand',
     'slp_perm_sound', 'modname_deterministic']] + [
     'Pyiga.Gen.HashKeys.keyTable_complete', 'Pyiga.Gen.HashKeys.fkeyTable_complete', 'Pyiga.Gen.HashKeys.base_hash_ok',
-    'Pyiga.Gen.HashKeys.codegen_reads_known', 'Pyiga.Gen.HashKeys.extraction_consistent']
+    'Pyiga.Gen.HashKeys.codegen_reads_known', 'Pyiga.Gen.HashKeys.extraction_consistent', 'Pyiga.Gen.HashKeys.modname_digest_ok']
 MODULES = ['Pyiga.Model.VForm', 'Pyiga.Model.SLP', 'Pyiga.Proofs.VFormKey', 'Pyiga.Proofs.SLP', 'Pyiga.Props.C13', 'Pyiga.Gen.HashKeys']
 
 CONSTS = [1.0, 2.0, -1.0, -2.0, 0.5, 0.0, -0.0, 3.0]
@@ -191,6 +191,7 @@ def search_pairs(ctx, n=None, report_key=None):
     for ch, rs in zip(chunks, res):
         for k, r in zip(ch, rs):
             val[k] = r
+    ctx._c13_sources = set(v['src'] for v in val.values() if v['src'])
     req, exp, meta = [], [], []
     nviol = 0
     for (ka, kb, tok) in pairs:
@@ -287,7 +288,7 @@ def run(ctx):
         keys_ok = ok
         ctx.obligation('T-key: KeyTableComplete, FKeyTableComplete, base hash, codegen reads, extraction consistency re-decided on the '
                        'regenerated tables (Gen/HashKeys.lean)', ok, log[-900:] if not ok else '')
-        ctx.extra['key_table'] = key_table; ctx.extra['form_key_attrs'] = ftable
+        ctx.extra['key_table'] = key_table; ctx.extra['form_key_attrs'] = ftable; ctx.extra['modname_expression'] = kt.get('modname')
         ctx.extra['unknown_codegen_reads'] = kt['unknown_reads']; ctx.extra['extraction_problems'] = kt['problems'] + kt['probe']['mismatch']
     except Exception:
         ctx.obligation('T-key translator ran', False, traceback.format_exc()[-600:])
@@ -375,6 +376,13 @@ def run(ctx):
     ctx.extra['requests'] = len(lines)
     if len(ctx.samples) < 3 and meta:
         ctx.sample({'pair_token': meta[0][3], 'spec': {k: repr(v) for k, v in meta[0][1].items()}})
+
+    # on-disk module names: function of the source, injective on the corpus + adversarial sources
+    try:
+        from . import c13_modname
+        c13_modname.check_modnames(ctx, getattr(ctx, '_c13_sources', set()))
+    except Exception:
+        ctx.obligation('module-name check ran', False, traceback.format_exc()[-600:])
 
     # freshness of the shipped files
     try:
